@@ -147,6 +147,10 @@ def generate(rng, config):
         mx = 0
     m = rng.choice([0, 1, mx // 2, max(0, mx - 1), mx, mx, mx + 1, mx + 5,
                     max(0, mx // 3), 2])
+    if rng.random() < 0.04:
+        # far more than there is: a refusal, and within a bounded number
+        # of steps
+        m = mx + rng.choice([10 ** 4, 10 ** 6, 10 ** 9, 10 ** 20])
     if kind == "kxor" and k >= 6:
         m = min(m, 6)
     strategy, budget = adversary_from(rng, p_none=0.4)
@@ -209,9 +213,13 @@ def _one_request(case, ctx, kind, ri, kw, planted):
     k, n, m = case["k"], case["n"], case["m"]
     # a correct run needs at most 10*m sparse trials of (1 + k) draws plus
     # one dense sample: the progress bound scales with the request
+    # (what the request can be granted at most bounds the work as well:
+    # asking for 10**20 clauses out of 2 is refused, not tried for ever)
+    import math
+    most = 0 if k > n else math.comb(n, k) * (2 ** k if kind == "kcnf" else 2)
     sim = SimRandom(case["prng"]["seed"] + ri, case["prng"]["strategy"],
                     case["prng"]["budget"],
-                    max_draws=20_000 + 25 * (m + 1) * (k + 2))
+                    max_draws=20_000 + 25 * (min(m, most + 5) + 1) * (k + 2))
     fn = cnfgen.RandomKCNF if kind == "kcnf" else cnfgen.RandomKXOR
     climsg._prefix = ""
     with installed(sim):
